@@ -70,6 +70,7 @@ structure Task where
   outcome : Outcome
   starts : Nat := 0             -- how many times `fn` was entered
   handled : List HVal := []     -- what the handler (or the fallback print) got on behalf of this task
+  hid : Nat := 0                -- which handler `go Recover(fn, l.panicHandler, l.done)` captured
 deriving DecidableEq, Repr
 
 /-- A `Wait()` call: the tasks whose `Go` had returned when it was called, and whether
@@ -85,6 +86,7 @@ structure St where
   wg : Nat := 0           -- WaitGroup counter
   tasks : List Task := []
   waiters : List Waiter := []
+  cur : Nat := 0          -- `l.panicHandler`: id of the handler configured by the last `SetPanicHandler`
 deriving DecidableEq, Repr
 
 /-- `NewLimiter(limit)`. The two constants come from the source (see Props: compared
@@ -105,8 +107,8 @@ def St.adv (s : St) (i : Nat) : Option St :=
       else none
     | .sent =>       -- l.w.Add(1)
       some { s with wg := s.wg + 1, tasks := s.tasks.set i { t with pc := .added } }
-    | .added =>      -- go Recover(…)
-      some { s with tasks := s.tasks.set i { t with pc := .ready } }
+    | .added =>      -- go Recover(fn, l.panicHandler, l.done): the handler field is read HERE
+      some { s with tasks := s.tasks.set i { t with pc := .ready, hid := s.cur } }
     | .ready =>      -- fn()
       some { s with tasks := s.tasks.set i { t with pc := .running, starts := t.starts + 1 } }
     | .running =>    -- fn returns or panics
@@ -139,6 +141,7 @@ inductive Label where
   | waitCall               -- a goroutine calls `Wait()`
   | waitRet (j : Nat)      -- the `j`-th `Wait()` call returns
   | waitTimed              -- a goroutine calls `Wait(d)`, d > 0, and the call returns (idle or expired)
+  | setHandler (h : Nat)   -- `SetPanicHandler(handler h)`: a plain store to `l.panicHandler`
 deriving DecidableEq, Repr
 
 def St.step (s : St) : Label → Option St
@@ -158,6 +161,9 @@ def St.step (s : St) : Label → Option St
   -- returns (counter zero, or `d` expired with functions still running) the Limiter is
   -- as it was.  (Order re-checked against the regenerated fact `waitTimedBody`.)
   | .waitTimed => some s
+  -- `SetPanicHandler(fn)`: `l.panicHandler = fn` (a plain field; calling it concurrently with
+  -- `Go` is a data race and outside the model: the scripts call it when the submitter is idle)
+  | .setHandler h => some { s with cur := h }
 
 /-- Run a schedule; `none` if some step is not enabled. -/
 def St.run (s : St) : List Label → Option St
